@@ -32,7 +32,10 @@ for srv in ('none', 'ref:Server'):
                                                   'class:KeyboardInterrupt', 'class:ValueError'],
                      'exc_val': ['none', exc_kind], 'exc_tb': ['none', 'obj']},
              requires=None,
-             ensures=[('sends-iff-the-block-did-not-raise', exit_post)],
+             ensures=[('sends-iff-the-block-did-not-raise', exit_post)]
+             + ([('server-address-restored-on-every-exit', lambda c: z3.BoolVal(
+                 (lambda a: a is not None and a.k == 'obj' and a.oid == 'self._save_addr')(
+                     c.st.objs.get('self._server', {}).get('_addr'))))] if srv != 'none' else []),
              fields={'BundleNetAddr': {'_server': srv, '_save_addr': 'obj', '_send': 'bool'},
                      'Server': {'_addr': 'obj'}},
              policies={'BundleNetAddr._send_last_bundle': 'opaque'},
@@ -123,3 +126,12 @@ contract(F, 'BundleNetAddr._send_last_bundle', props=('C17',), params={'self': '
          modifies=[], fields=BF, hooks={'getattr': b_getattr}, class_modules={'BundleNetAddr': F}, native=False,
          opts={'star_symbolic': True},
          note='the case with a server (bind() always has one); the elements passed are the tail slice')
+
+
+contract(F, 'BundleNetAddr.__enter__', props=('C17',), params={'self': 'self'},
+         ensures=[('collecting-address-installed-and-returned', lambda c: z3.BoolVal(
+             (lambda a: a is not None and a.k == 'ref' and a.oid == 'self')(c.st.objs.get('self._server', {}).get('_addr'))
+             and c.resultv.k == 'ref' and c.resultv.oid == 'self'))],
+         modifies=[('self._server', '_addr')],
+         fields={'BundleNetAddr': {'_server': 'ref:Server', '_save_addr': 'obj', '_send': 'bool'}, 'Server': {'_addr': 'obj'}},
+         class_modules={'BundleNetAddr': F}, native=False)
